@@ -343,10 +343,24 @@ def run(prog, chk):
         for (b2, i2, r2_, asg) in fn.eval_sites("asg"):
             if any(x.get("id") == n["id"] for x in walk(asg.get("rhs"))):
                 rv = path(strip(asg.get("lhs")))
+        for (b2, i2, r2_, d) in fn.eval_sites("decl"):
+            for v in d.get("vars", []):
+                if v.get("init") is not None and any(isinstance(x, dict) and x.get("id") == n["id"] for x in walk(v["init"])):
+                    rv = v["name"]
         starts = []
-        for blk in fn.blocks.values():
+        # the first test of the result on the way from the call (breadth-first), not just any test of that variable
+        order, seen_b, queue = [], {b.id}, [b.id]
+        while queue:
+            cur = queue.pop(0)
+            order.append(cur)
+            for s_ in fn.blocks[cur].succs:
+                if s_ is not None and s_ not in seen_b:
+                    seen_b.add(s_)
+                    queue.append(s_)
+        for bid_ in order:
+            blk = fn.blocks[bid_]
             c = cfgq.cond_of(fn, blk)
-            if c is None or blk.id not in cfgq.reach(fn, [b.id]):
+            if c is None:
                 continue
             t = cfgq.cmp_test(c, lambda e: path(strip(e)) == rv)
             if t in (("==", 0),):
